@@ -66,6 +66,22 @@ DefDoc == [defsList |-> [i \in Idx |-> <<Names[i], QObj>>]
                                               [ref |-> Names[CHOOSE i \in Idx : RName(i) = r]]], { RName(i) : i \in Idx })>> >>]
 DefInst == JObj([i \in Idx |-> RName(i)], [i \in Idx |-> JObj1("q", JInt(i))])
 
+(* names as variant names of an externally tagged enum (single-property closed objects in a oneOf),
+   for each payload kind; only for short names, keywords and the pair pool (bounded compile load) *)
+Payload(k) == CASE k = "int" -> SInt
+                [] k = "tuple1" -> STuple(<<SStr>>)
+                [] k = "tuple2" -> STuple(<<SInt, SStr>>)
+                [] k = "struct" -> SObj(Props1("f", SInt), {"f"})
+PayloadVal(k) == CASE k = "int" -> JInt(7)
+                   [] k = "tuple1" -> JArr(<<JS(<<"x">>)>>)
+                   [] k = "tuple2" -> JArr(<<JInt(1), JS(<<"x">>)>>)
+                   [] k = "struct" -> JObj1("f", JInt(3))
+VarDoc(k) == [defsList |-> << <<"T", [oneOf |-> [i \in Idx |->
+                  [type |-> "object", propsList |-> << <<Names[i], Payload(k)>> >>, required |-> <<Names[i]>>,
+                   additionalProperties |-> SFalse]]]>> >>]
+VarInsts(k) == [i \in Idx |-> JObj(<<Names[i]>>, <<PayloadVal(k)>>)]
+VariantCtx == mode = "kw" \/ (mode = "single" /\ Len(n1) <= 1) \/ (mode = "pair" /\ Len(n1) > 1 /\ Len(n2) > 1)
+
 Case(ctx, doc, insts) ==
     [fam |-> "C08", ctx |-> ctx, mode |-> mode, names |-> Names,
      settings |-> [builder |-> TRUE],
@@ -76,4 +92,6 @@ Emit == Distinct =>
     /\ PrintT(<<"CASE", ToJson(Case("prop", PropDoc, <<PropInst>>))>>)
     /\ PrintT(<<"CASE", ToJson(Case("enum", EnumDoc, [i \in Idx |-> JStr(Names[i])]))>>)
     /\ PrintT(<<"CASE", ToJson(Case("def", DefDoc, <<DefInst>>))>>)
+    /\ (VariantCtx => \A k \in {"int", "tuple1", "tuple2", "struct"} :
+            PrintT(<<"CASE", ToJson(Case("var-" \o k, VarDoc(k), VarInsts(k)))>>))
 =============================================================================
